@@ -21,7 +21,6 @@ LEAN_MODULES = ["HoloProps.C11", "HoloProps.C11Ties", "HoloProps.C11Survivors"]
 MODEL_MODULES = ["HoloModel.Mapping"]
 NOT_PROVED = [
     "termination of the `_0, _1, ...` name de-duplication loop within its fuel, and hence uniqueness of names over a whole mapping run (one-step theorem C11_add_parameter_fresh_partial only); uniqueness is checked on the implementation by the search",
-    "the position arithmetic of add_tie (survivor j moves to j - #deleted below j) is tied by exact correspondence on all subsets of up to 5 candidates, not proved in general; C11_tie_read is proved for the index map as written",
     "'without sharing mutable state' (aliasing) is not expressible in the functional model: identity walk in the search",
     "rigid cluster = rotated and translated collection: geometry proved in C19; its use inside a Model is a known finding",
 ]
